@@ -222,7 +222,7 @@ func c16CredUDP(c c16CredCase) (key, msg string) {
 		return c16SlowKey(r.err) + "cred:same-secret-handshake-failed", fmt.Sprintf("Dial completed but Accept failed: %v", r.err)
 	}
 	defer r.conn.Close()
-	if _, err := dconn.Write(c16Tag('D', c.Secret, 1)); err != nil {
+	if err := c16WriteTag(dconn, c16Tag('D', c.Secret, 1), c16TagWait); err != nil {
 		return c16SlowKey(err) + "cred:same-secret-handshake-failed", "write on the dialled connection: " + err.Error()
 	}
 	got, err := c16ReadTag(r.conn, c16TagWait)
@@ -232,7 +232,7 @@ func c16CredUDP(c c16CredCase) (key, msg string) {
 	if !bytes.Equal(got, c16Tag('D', c.Secret, 1)) {
 		return "cred:message-garbled", fmt.Sprintf("the acceptor read %q", got)
 	}
-	if _, err := r.conn.Write(c16Tag('A', c.Secret, 1)); err != nil {
+	if err := c16WriteTag(r.conn, c16Tag('A', c.Secret, 1), c16TagWait); err != nil {
 		return c16SlowKey(err) + "cred:same-secret-handshake-failed", "write on the accepted connection: " + err.Error()
 	}
 	got, err = c16ReadTag(dconn, c16TagWait)
@@ -270,7 +270,7 @@ func c16PipePair(sa, sb []byte, wait time.Duration) (completed bool, serr, cerr 
 	if completed {
 		// one message each way
 		tag := c16Tag('D', sb, 2)
-		if _, err := cconn.Write(tag); err != nil {
+		if err := c16WriteTag(cconn, tag, c16TagWait); err != nil {
 			cerr = err
 			completed = false
 		} else if got, err := c16ReadTag(sr.conn, c16TagWait); err != nil || !bytes.Equal(got, tag) {
